@@ -361,10 +361,18 @@ def rand_exact_case(rng, n, backend, with_meas=False, maxlen=3):
     segs = []
     n_gates = rng.choice([0, 1, 3, 5, 7]) if prefix else rng.choice([1, 3, 5, 7])
     if with_meas:
-        k = rng.randint(1, 2)
-        for _ in range(k):
-            segs.append([clean(LC.rand_gate_list(rng, n, rng.randint(1, 4), LC.ALL_UNITARY, var_p=0.0, echo_p=0.1)),
-                         [rng.randrange(n), rng.randint(0, 1)]])
+        # pieces between measurements may be EMPTY: adjacent MEASUREs, or a circuit that starts with a MEASURE (then the
+        # superposition comes from the initial statevector); adjacent measurements act on distinct qubits
+        k = rng.choice([1, 2, 2, 3]) if n >= 3 else rng.randint(1, 2)
+        last_q = None
+        for j in range(k):
+            empty = rng.random() < (0.35 if (j > 0 or prefix) else 0.0)
+            gs = [] if empty else clean(LC.rand_gate_list(rng, n, rng.randint(1, 4), LC.ALL_UNITARY, var_p=0.0, echo_p=0.1))
+            q = rng.randrange(n)
+            if empty and q == last_q and n > 1:
+                q = (q + 1 + rng.randrange(n - 1)) % n
+            last_q = q
+            segs.append([gs, [q, rng.randint(0, 1)]])
         segs.append([clean(LC.rand_gate_list(rng, n, rng.randint(0, 3), LC.ALL_UNITARY, var_p=0.0, echo_p=0.1)), None])
     else:
         segs.append([clean(LC.rand_gate_list(rng, n, n_gates, LC.ALL_UNITARY, var_p=0.0, echo_p=0.1)) if n_gates else [], None])
@@ -428,6 +436,8 @@ def eigen_case(rng, n, variant):
     if variant in ("mixed", "dmr", "dmr-isv") and spect:
         m = spect[-1]
         segs = [[gates, [m, rng.randint(0, 1)]], [[g("RX", m, None, 3)], None]]
+        if len(spect) >= 2 and rng.random() < 0.7:          # two measurements in a row (the usual way of measuring a register)
+            segs.insert(1, [[], [spect[-2], rng.randint(0, 1)]])
         dmr = "given" if variant != "mixed" else None
     elif corr:
         m, a, d = corr
@@ -788,6 +798,128 @@ def exhaustive_words(n=2):
     return words
 
 
+# ------------------------------------------------------------------------------------------ histories on one backend object
+def gen_history(rng, kind, n):
+    """A sequence of evaluations on ONE backend object: operators (two objects) are mutated IN PLACE between calls
+    (op += term, op *= scalar, op.terms[t] = c, del op.terms[t]), different operators / circuits / initial statevectors are
+    interleaved.  Pure data (replayable): {"n", "backend", "shots", "ctype", "circuits": [...], "isv": [...], "steps": [...]}"""
+    ctype = rng.random() < 0.25
+    circuits = [clean(LC.rand_gate_list(rng, n, rng.randint(1, 5), LC.ALL_UNITARY, var_p=0.0, echo_p=0.1)) for _ in range(2)]
+    isvs = [[], clean(LC.rand_gate_list(rng, n, 3, LC.ALL_UNITARY, var_p=0.0))]
+    steps = []
+    for which in (0, 1):
+        op, _ = rand_operator(rng, n, maxlen=2, complex_p=0.0)
+        steps.append(["new", which, [[t[0], str(t[1]), str(rand_coef(rng) if ctype else 0)] for t in op]])
+    steps.append(["eval", 0, rng.choice(["E", "E", "V"]), 0, 0])
+    for _ in range(rng.randint(5, 9)):
+        r = rng.random()
+        which = rng.randint(0, 1)
+        if r < 0.45:
+            steps.append(["eval", which, rng.choice(["E", "E", "E", "V"]), rng.randint(0, 1), rng.choice([0, 0, 1])])
+            continue
+        if r < 0.65:
+            steps.append(["iadd", which, rand_word(rng, n, 2) if rng.random() < 0.85 else [], str(rand_coef(rng)), str(rand_coef(rng) if ctype else 0)])
+        elif r < 0.8:
+            steps.append(["imul", which, str(rng.choice([Fraction(-1), Fraction(1, 2), Fraction(2), Fraction(-3, 4)]))])
+        elif r < 0.95:
+            steps.append(["setterm", which, rand_word(rng, n, 2), str(rand_coef(rng)), str(rand_coef(rng) if ctype else 0)])
+        else:
+            steps.append(["delterm", which])
+        # every mutation is followed by an evaluation of the mutated object with the arguments of an earlier call
+        steps.append(["eval", which, rng.choice(["E", "E", "V"]), rng.randint(0, 1), 0])
+    return {"n": n, "backend": kind, "shots": rng.choice([None, None, 0]), "ctype": ctype, "circuits": circuits, "isv": isvs, "steps": steps}
+
+
+def run_history(h):
+    """Replays a history on the real classes with a tracked copy of every operator's VALUE; returns the list of
+    (step index, api, implementation result, exact value, last mutation) of the evaluations."""
+    from tangelo.linq import Circuit
+    from tangelo.toolboxes.operators import QubitOperator
+    n = h["n"]
+    b = make_backend(h["backend"], h["shots"])
+    circs = [Circuit([LC.make_gate(g) for g in gs], n_qubits=n) for gs in h["circuits"]]
+    ops, vals, last = {}, {}, {0: "new", 1: "new"}
+
+    def num(re_, im_):
+        re_, im_ = Fraction(re_), Fraction(im_)
+        return complex(float(re_), float(im_)) if h["ctype"] else float(re_)
+    out = []
+    for i, st in enumerate(h["steps"]):
+        kind, which = st[0], st[1]
+        if kind == "new":
+            o = QubitOperator()
+            vals[which] = {}
+            for term, re_, im_ in st[2]:
+                key = tuple((q, l) for q, l in term)
+                o.terms[key] = num(re_, im_)
+                vals[which][key] = (Fraction(re_), Fraction(im_))
+            ops[which] = o
+        elif kind == "iadd":
+            key = tuple((q, l) for q, l in st[2])
+            ops[which] += QubitOperator(key, num(st[3], st[4]))
+            a = vals[which].get(key, (Fraction(0), Fraction(0)))
+            v = (a[0] + Fraction(st[3]), a[1] + Fraction(st[4]))
+            if v == (0, 0):
+                vals[which].pop(key, None)
+            else:
+                vals[which][key] = v
+        elif kind == "imul":
+            f = Fraction(st[2])
+            ops[which] *= float(f)
+            vals[which] = {k: (v[0] * f, v[1] * f) for k, v in vals[which].items()}
+        elif kind == "setterm":
+            key = tuple((q, l) for q, l in st[2])
+            ops[which].terms[key] = num(st[3], st[4])
+            vals[which][key] = (Fraction(st[3]), Fraction(st[4]))
+        elif kind == "delterm":
+            if len(vals[which]) > 1:
+                key = sorted(vals[which])[0]
+                del ops[which].terms[key]
+                del vals[which][key]
+        if kind != "eval":
+            last[which] = kind
+            continue
+        api, ci, use_isv = st[2], st[3], st[4]
+        case = {"n": n, "prefix": h["isv"][1] if use_isv else [], "pass_isv": bool(use_isv), "segs": [[h["circuits"][ci], None]],
+                "op": [[[list(f_) for f_ in k], v[0], v[1]] for k, v in vals[which].items()], "ctype": h["ctype"], "backend": h["backend"],
+                "shots": h["shots"], "dmr": None}
+        orc = oracle(case)
+        isv = NS.to_lsq_first(NS.run(gates_np(h["isv"][1]), n), n) if use_isv else None
+        f = b.get_expectation_value if api == "E" else b.get_variance
+        r = call(lambda: f(ops[which], circs[ci], initial_statevector=isv))
+        out.append((i, api, r, orc["E"] if api == "E" else orc["V"], last[which], orc["near_threshold"]))
+    return out
+
+
+def stream_history(ck):
+    rng, quick = ck.rng, ck.tier == "quick"
+    ck.stream("history", "sequences of 6-12 get_expectation_value / get_variance calls on ONE backend object (cirq native, cirq generic; n_shots None or 0): "
+              "two operator objects mutated in place between calls (+=, *=, terms[t] = c, del terms[t]), different operators, circuits and initial "
+              "statevectors interleaved; every returned value vs the numpy value of the operator's CURRENT content; non-trivial = an evaluation follows a mutation")
+    for hi in range(40 if quick else 600):
+        h = gen_history(rng, rng.choice(["cirq", "cirq", "generic"]), rng.choice([2, 2, 3]))
+        try:
+            res = run_history(h)
+        except Exception as e:                                              # noqa
+            ck.violation("C02/history/%s/exception" % h["backend"], "tangelo raised %s: %s during a history of evaluations" % (type(e).__name__, str(e)[:200]),
+                         {"kind": "history", "history": h})
+            continue
+        ck.case("history", json.dumps(h, sort_keys=True, default=str), nontrivial=True,
+                sample={"backend": h["backend"], "shots": h["shots"], "steps": [s_[0] for s_ in h["steps"]]},
+                tags=[h["backend"], "complex" if h["ctype"] else "real", "evals=%d" % len(res)])
+        for (i, api, r, want, lastmut, near) in res:
+            if near and (api == "V" or h["shots"] == 0):
+                continue
+            if not (r[0] == "ok" and close(r[1], want, 1e-8 if api == "V" else TOL)):
+                hh = dict(h, steps=h["steps"][:i + 1])
+                name = "get_expectation_value" if api == "E" else "get_variance"
+                ck.violation("C02/history/%s/%s/after-%s" % (h["backend"], name, lastmut),
+                             "step %d of a history on one backend object: %s returned %s, exact value for the operator's current content %r "
+                             "(last in-place change of that operator object: %s)" % (i, name, r[1] if r[0] == "ok" else "%s: %s" % r[1:], want, lastmut),
+                             {"kind": "history", "history": hh})
+                break
+
+
 def guarded(ck, name, f, *args):
     """Run one stream; a crash of the stream itself is reported (no input) and the other streams still run."""
     import traceback
@@ -872,6 +1004,22 @@ def stream_exact(ck, gen_ok, timing):
         cases.append(dict(base, op=[[[[0, "X"], [1, "Y"]], Fraction(1), Fraction(0)]], shots=0))
         cases.append(dict(base, op=[[[[0, "X"], [1, "Y"], [2, "Z"]], Fraction(1), Fraction(0)]]))
         cases.append(dict(base, op=[[[[0, "X"], [1, "Y"], [2, "Z"]], Fraction(1), Fraction(1)]], ctype=True))
+    # designated: adjacent MEASUREs and a leading MEASURE on superposed / entangled qubits, every desired outcome, every route
+    h1 = {"name": "H", "target": [1], "control": None, "k": None, "var": False}
+    ry2 = {"name": "RY", "target": [2], "control": None, "k": 3, "var": False}
+    cx20 = {"name": "CNOT", "target": [2], "control": [0], "k": None, "var": False}
+    rx1 = {"name": "RX", "target": [1], "control": None, "k": 5, "var": False}
+    zz_op = [[[[0, "Z"]], Fraction(1), Fraction(0)], [[[1, "Z"], [2, "X"]], Fraction(1, 2), Fraction(0)], [[[0, "Z"], [1, "Z"]], Fraction(-3, 4), Fraction(0)],
+             [[], Fraction(1, 4), Fraction(0)]]
+    for be in ("cirq", "generic"):
+        for b0, b1 in itertools.product((0, 1), repeat=2):
+            base = {"n": 3, "ctype": False, "backend": be, "shots": None, "dmr": "given", "op": zz_op, "designated": "adjacent-measures"}
+            # H0 RY2 H1 CNOT(2<-0); MEASURE 0; MEASURE 1; RX1
+            cases.append(dict(base, prefix=[], pass_isv=False, segs=[[[h0, ry2, h1, cx20], [0, b0]], [[], [1, b1]], [[rx1], None]]))
+            # the same state supplied as initial statevector; the circuit STARTS with MEASURE 0, MEASURE 1
+            cases.append(dict(base, prefix=[h0, ry2, h1, cx20], pass_isv=True, segs=[[[], [0, b0]], [[], [1, b1]], [[rx1], None]]))
+            # the circuit ends with the two measurements
+            cases.append(dict(base, prefix=[], pass_isv=False, segs=[[[h0, ry2, h1, cx20], [1, b1]], [[], [0, b0]], [[], None]]))
     exprs, todo = [], []
     n_coq = 0
     coq_budget = 150 if quick else 2000
@@ -891,7 +1039,8 @@ def stream_exact(ck, gen_ok, timing):
             ck.not_evaluated += 1          # desired outcome has probability zero: simulate raises (C10)
             continue
         impl = safe_impl(ck, "exact", case)
-        record(ck, "exact", case, orc, ["exhaustive-2q-words"] if case.get("exhaustive") else [])
+        record(ck, "exact", case, orc, (["exhaustive-2q-words"] if case.get("exhaustive") else []) + (
+            ["adjacent-or-leading-measure"] if any(m is not None and not gs for gs, m in case["segs"]) else []))
         if impl is None:
             continue
         # in the quick tier the exhaustive single-word cases go through Coq only on the generic backend (it exercises both
@@ -1120,7 +1269,7 @@ def run(ck):
     # 3. streams: each on its own; the implementation-only oracles run whatever happened above
     for name, f, args in (("basis-gates", basis_gate_stream, (ck, gen_ok)), ("dispatch", dispatch_stream, (ck, gen_ok)),
                           ("exact", stream_exact, (ck, gen_ok, timing)), ("index-beyond-width", stream_beyond, (ck,)),
-                          ("sympy", stream_sympy, (ck,)), ("sampled", stream_sampled, (ck,))):
+                          ("history", stream_history, (ck,)), ("sympy", stream_sympy, (ck,)), ("sampled", stream_sampled, (ck,))):
         T0 = time.time()
         guarded(ck, name, f, *args)
         timing[name] = round(time.time() - T0, 1)
@@ -1158,6 +1307,14 @@ def replay(data):
                     bad = 1
         print("still fails" if bad else "passes now")
         return bad
+    if r.get("kind") == "history":
+        bad = 0
+        for (i, api, x, want, lastmut, near) in run_history(r["history"]):
+            ok = x[0] == "ok" and abs(x[1] - want) <= 1e-8
+            print("step %d %s after %s: impl %s, exact %r%s" % (i, api, lastmut, x[1:] if x[0] == "exc" else x[1], want, "" if ok else "   <-- differs"))
+            bad |= (not ok)
+        print("still fails" if bad else "passes now")
+        return int(bad)
     if r.get("kind") == "beyond":
         from tangelo.linq import Gate, Circuit
         from tangelo.toolboxes.operators import QubitOperator
